@@ -1,5 +1,4 @@
 /-
-<<<<<<< HEAD
   UTF-8 is order preserving: comparing the encodings of two texts byte-wise (Go's
   `strings.Compare`) is comparing the texts lexicographically by code point.
 
@@ -116,100 +115,3 @@ theorem utf8_eq_toByteArray (s : String) : utf8 s = s.toByteArray.data.toList :=
   simp [List.utf8Encode]
 
 end PrologVerif.OrderProofs
-=======
-  C16 `text_is_chars`: on the UTF-8 bytes of a text, Go's `range` loop and `[]rune` conversion see
-  exactly the code points.
--/
-import PrologVerif.Model.Utf8
-namespace PrologVerif.Utf8
-
-theorem encode_cons (c : Char) (cs : List Char) : encode (c :: cs) = String.utf8EncodeChar c ++ encode cs := by
-  simp [encode]
-
-theorem encode_append (a b : List Char) : encode (a ++ b) = encode a ++ encode b := by
-  simp [encode]
-
-theorem decodeRune_encode (c : Char) (rest : List UInt8) :
-    decodeRune (String.utf8EncodeChar c ++ rest) = (c, c.utf8Size) := by
-  simp [decodeRune, List.toByteArray_append, ByteArray.utf8DecodeChar?_utf8EncodeChar_append]
-
-theorem length_encode_le (cs : List Char) : cs.length ≤ (encode cs).length := by
-  induction cs with
-  | nil => simp [encode]
-  | cons c cs ih =>
-    rw [encode_cons, List.length_append, String.length_utf8EncodeChar]
-    have := c.utf8Size_pos
-    simp; omega
-
-theorem encodeChar_ne_nil (c : Char) : String.utf8EncodeChar c ≠ [] := by
-  intro h
-  have := String.length_utf8EncodeChar c
-  rw [h] at this
-  have := c.utf8Size_pos
-  simp at *
-
-/-- `[]rune(s)` of the encoding of a text is the text -/
-theorem runes_encode : (f : Nat) → (cs : List Char) → cs.length ≤ f → runes f (encode cs) = cs
-  | _, [], _ => by
-    simp only [encode, List.flatMap_nil]
-    unfold runes
-    split <;> simp_all
-  | 0, _ :: _, h => by simp at h
-  | f + 1, c :: cs, h => by
-    rw [encode_cons]
-    cases hb : String.utf8EncodeChar c ++ encode cs with
-    | nil => exact absurd (List.append_eq_nil_iff.mp hb).1 (encodeChar_ne_nil c)
-    | cons b bs =>
-      unfold runes
-      simp only
-      rw [← hb, decodeRune_encode]
-      simp only
-      rw [List.drop_left' (String.length_utf8EncodeChar c)]
-      rw [runes_encode f cs (by simpa using h)]
-
-/-- `for i := range s` over the encoding of a text visits the offsets of its code points -/
-theorem rangeStarts_encode : (f : Nat) → (cs : List Char) → (off : Nat) → cs.length ≤ f →
-    rangeStarts f (encode cs) off = (List.range cs.length).map fun k => off + (encode (cs.take k)).length
-  | _, [], _, _ => by
-    simp only [encode, List.flatMap_nil]
-    unfold rangeStarts
-    split <;> simp_all
-  | 0, _ :: _, _, h => by simp at h
-  | f + 1, c :: cs, off, h => by
-    rw [encode_cons]
-    cases hb : String.utf8EncodeChar c ++ encode cs with
-    | nil => exact absurd (List.append_eq_nil_iff.mp hb).1 (encodeChar_ne_nil c)
-    | cons b bs =>
-      unfold rangeStarts
-      simp only
-      rw [← hb, decodeRune_encode]
-      simp only
-      rw [List.drop_left' (String.length_utf8EncodeChar c)]
-      rw [rangeStarts_encode f cs _ (by simpa using h)]
-      simp only [List.length_cons, List.range_succ_eq_map, List.map_cons, List.take_zero, List.map_map]
-      congr 1
-      · simp [encode]
-        intro a _
-        omega
-
-/-- taking / dropping bytes at the offset of the k-th code point = taking / dropping k code points -/
-theorem take_encode (cs : List Char) (k : Nat) :
-    (encode cs).take (encode (cs.take k)).length = encode (cs.take k) ∧
-    (encode cs).drop (encode (cs.take k)).length = encode (cs.drop k) := by
-  have : encode cs = encode (cs.take k) ++ encode (cs.drop k) := by
-    rw [← encode_append, List.take_append_drop]
-  constructor
-  · conv => lhs; rw [this]
-    exact List.take_left' rfl
-  · conv => lhs; rw [this]
-    exact List.drop_left' rfl
-
-/-- the encoding is injective: a byte string names one text -/
-theorem encode_inj {a b : List Char} (h : encode a = encode b) : a = b := by
-  have ha := runes_encode (max a.length b.length) a (Nat.le_max_left _ _)
-  have hb := runes_encode (max a.length b.length) b (Nat.le_max_right _ _)
-  rw [h] at ha
-  exact ha.symm.trans hb
-
-end PrologVerif.Utf8
->>>>>>> d5ce4e7c848f71cd28f9299a070584e935110f0c
